@@ -369,9 +369,9 @@ func c10LexGen(g *hx.Gen) {
 	for _, s := range c10Suite {
 		g.Case(hx.HS(s))
 	}
-	N := 4000
+	N := 10000
 	if g.Thorough() {
-		N = 80000
+		N = 100000
 	}
 	for i := 0; i < N; i++ {
 		g.Case(hx.HS(c10RandText(g.Rng, 1+g.Rng.Intn(40))))
@@ -442,7 +442,10 @@ func c10Soup(r *hx.Rng, lines int) string {
 			}
 			// imports mostly well formed
 			if r.Chance(1, 8) {
-				sb.WriteString("import " + hx.Pick(r, []string{"f0", "f1", "f*", "*.c", "s1", "s2", "g.c", "f?", "*"}))
+				sb.WriteString("import " + hx.Pick(r, []string{"f0", "f1", "f*", "*.c", "s1", "s2", "g.c", "f?", "*", "h.c", "no*", "Casketfile"}))
+				if r.Chance(5, 6) {
+					break // imports mostly end their line
+				}
 				continue
 			}
 			sb.WriteString(hx.Pick(r, c10Vocab))
@@ -498,9 +501,9 @@ func c10ParseGen(g *hx.Gen) {
 	for _, c := range cyc {
 		g.Case("-", env, c10FSField(c.files), hx.HS(c.main))
 	}
-	N := 6000
+	N := 16000
 	if g.Thorough() {
-		N = 120000
+		N = 150000
 	}
 	for i := 0; i < N; i++ {
 		files := map[string]string{}
